@@ -3,18 +3,12 @@ CONSTANTS
   NT = 2
   MaxSteps = 100000
   Modes = {"fire", "call"}
-  Outcomes = {1, 3, 4}
-  Variants = {"intended"}
+  Outcomes = {1, 4}
+  Variants = {"noloop"}
   WithStop = TRUE
   WithUnreg = TRUE
   WithOther = TRUE
   SettleCap = 40
-INVARIANT TypeOK
 INVARIANT Conforms
-INVARIANT SubmittedOnce
-INVARIANT PoolAfterStart
-INVARIANT HandOverFromReady
-INVARIANT ClosedMeansDone
-INVARIANT AllOver
 VIEW View
 CHECK_DEADLOCK FALSE
